@@ -234,6 +234,15 @@ def corrupt_merchants(top, secs, c):
     elif kind == 'stray_text':
         props.insert(c['pos'] % (len(props) + 1), ('RAW', 'this line has no key'))
         mark = c['pos'] % len(props)
+    elif kind == 'empty_section':
+        # the whole body gone (e.g. commented out): a section lacking its match
+        props[:] = [('RAW', '# ' + (v if k in ('var', 'RAW') else f'{k}: {v}')) for k, v in props] if c['expr'] % 2 else []
+        mark = None
+    elif kind == 'stray_header':
+        # a bare header directly before another header or at the end of the file
+        si = c['pos'] % (len(secs) + 1)
+        secs.insert(si, (['Stray', name, 'New rule'][c['expr'] % 3], []))
+        mark = None
     else:
         return None
     text_lines, where = _assemble(top, secs)
@@ -278,6 +287,13 @@ def corrupt_views(top, secs, c):
     elif kind == 'bad_let_expr':
         props.insert(0, ('var', f'lv = {bad}'))
         mark = 0
+    elif kind == 'empty_section':
+        props[:] = [('RAW', '# ' + (v if k in ('var', 'RAW') else f'{k}: {v}')) for k, v in props] if c['expr'] % 2 else []
+        mark = None
+    elif kind == 'stray_header':
+        si = c['pos'] % (len(secs) + 1)
+        secs.insert(si, (['Stray', name, 'New view'][c['expr'] % 3], []))
+        mark = None
     elif kind in ('unknown_key', 'stray_text'):
         props.insert(c['pos'] % (len(props) + 1), ('RAW', ['match: total > 1', 'this line has no key', 'filter total > 1', 'tags: a, b'][c['expr'] % 4]))
         mark = c['pos'] % len(props)
@@ -292,7 +308,7 @@ def corrupt_views(top, secs, c):
 
 corruption_st = st.fixed_dictionaries({
     'kind': st.sampled_from(['no_match', 'unknown_key', 'bad_let', 'bad_field', 'bad_priority', 'bad_match', 'bad_let_expr', 'bad_field_expr', 'no_category_no_tags', 'stray_text',
-                             'var', 'transform']),
+                             'var', 'transform', 'empty_section', 'empty_section', 'stray_header', 'stray_header']),
     'sec': st.integers(0, 9), 'pos': st.integers(0, 9), 'expr': st.integers(0, 30)})
 
 case_st = st.fixed_dictionaries({
@@ -372,7 +388,7 @@ def check(case, stats: Stats):
             classes.add('corrupt_toplevel' if c['kind'] in ('var', 'transform') else 'corrupt_merchants')
             if c['kind'] not in ('var', 'transform') and secs and c['sec'] % len(secs) > 0:
                 nontrivial = True
-        if c['kind'] in ('no_match', 'bad_match', 'bad_let_expr', 'unknown_key', 'stray_text', 'var'):
+        if c['kind'] in ('no_match', 'bad_match', 'bad_let_expr', 'unknown_key', 'stray_text', 'var', 'empty_section', 'stray_header'):
             r = corrupt_views(vtop, vsecs, c)
             if r is not None:
                 text, allowed = r
